@@ -49,16 +49,54 @@ func (e *Engine) onThreadDone(st *State, th *Thread) {
 // wake lets blocked threads retry.
 func (e *Engine) wake(st *State) { st.Epoch++ }
 
-// block parks the current thread on its current instruction and switches to another thread.
-func (e *Engine) block(st *State, th *Thread, why string) {
+// block parks the current thread on its current instruction (it re-executes it when `ready`
+// reports that the operation can now proceed) and switches to another thread.
+func (e *Engine) block(st *State, th *Thread, why string, ready func(e *Engine, st *State) bool) {
 	th.Status = TBlocked
 	th.BlockEpoch = st.Epoch
 	th.BlockWhy = why
+	th.Ready = ready
 	st.NeedSched = true
 }
 
 func (e *Engine) runnable(st *State, th *Thread) bool {
-	return th.Status == TRunnable || (th.Status == TBlocked && th.BlockEpoch < st.Epoch)
+	if th.Status == TRunnable {
+		return true
+	}
+	if th.Status != TBlocked {
+		return false
+	}
+	if th.Ready != nil {
+		return th.Ready(e, st)
+	}
+	return th.BlockEpoch < st.Epoch
+}
+
+func (e *Engine) recvReady(st *State, obj int, self int) bool {
+	if obj == 0 {
+		return false
+	}
+	o := e.obj(st, obj)
+	return len(o.Buf) > 0 || o.Closed || e.timerReady(o)
+}
+
+func (e *Engine) sendReady(st *State, obj int, self int) bool {
+	if obj == 0 {
+		return false
+	}
+	o := e.obj(st, obj)
+	if o.Closed {
+		return true
+	}
+	if o.ChCap > 0 {
+		return len(o.Buf) < o.ChCap
+	}
+	for _, t := range st.Threads {
+		if t.Status == TBlocked && t.WaitRecv == obj && t.ID != self {
+			return true
+		}
+	}
+	return false
 }
 
 // reschedule picks the next thread to run. Called when the current one cannot continue.
@@ -267,7 +305,8 @@ func (e *Engine) execSend(st *State, th *Thread, fr *Frame, x *ssa.Send) {
 		next(fr)
 		return
 	}
-	e.block(st, th, "chan send")
+	obj, self := ch.Obj, th.ID
+	e.block(st, th, "chan send", func(e *Engine, st *State) bool { return e.sendReady(st, obj, self) })
 }
 
 func (e *Engine) execRecv(st *State, th *Thread, fr *Frame, x *ssa.UnOp) {
@@ -289,9 +328,9 @@ func (e *Engine) execRecv(st *State, th *Thread, fr *Frame, x *ssa.UnOp) {
 	}
 	if ch.Obj != 0 && e.obj(st, ch.Obj).ChCap == 0 {
 		th.WaitRecv = ch.Obj
-		e.wake(st) // a sender may now rendezvous
 	}
-	e.block(st, th, "chan receive")
+	obj, self := ch.Obj, th.ID
+	e.block(st, th, "chan receive", func(e *Engine, st *State) bool { return e.recvReady(st, obj, self) })
 }
 
 func (e *Engine) execSelect(st *State, th *Thread, fr *Frame, x *ssa.Select) {
@@ -348,7 +387,24 @@ func (e *Engine) execSelect(st *State, th *Thread, fr *Frame, x *ssa.Select) {
 			next(fr)
 			return
 		}
-		e.block(st, th, "select")
+		type wc struct {
+			obj  int
+			send bool
+		}
+		var ws []wc
+		for _, s := range x.States {
+			ch := e.val(st, fr, s.Chan).(ChanV)
+			ws = append(ws, wc{ch.Obj, s.Dir == types.SendOnly})
+		}
+		self := th.ID
+		e.block(st, th, "select", func(e *Engine, st *State) bool {
+			for _, w := range ws {
+				if w.send && e.sendReady(st, w.obj, self) || !w.send && e.recvReady(st, w.obj, self) {
+					return true
+				}
+			}
+			return false
+		})
 		return
 	}
 	// Go picks uniformly among ready cases: every ready case is a possible behaviour
